@@ -70,6 +70,17 @@ func TestWorker(t *testing.T) {
 			marker.WriteAt([]byte(fmt.Sprintf("%-12d", i)), 0)
 		}
 	}
+	rl := openRaceLog()
+	if rl != nil {
+		inner := eng.exec
+		eng.exec = func(t *testing.T, plan *kernel.Plan, known map[string]bool, verbose bool) *kernel.Result {
+			res := inner(t, plan, known, verbose)
+			if v := rl.newViolation(plan.Property); v != nil && res.Violation == nil {
+				res.Violation = v
+			}
+			return res
+		}
+	}
 	known := map[string]bool{}
 	for _, k := range job.Known {
 		known[k] = true
